@@ -33,6 +33,7 @@ func c05MinimalCases() []c05Case {
 	st := c05Typ{K: "struct", F: []c05Fld{{W: []string{"x"}, T: c05Typ{K: "int"}, Tag: "json", KS: "camel"}}}
 	str := func(f *c05Fld) { f.Str = true }
 	strOpts := func(f *c05Fld) { f.Str = true; f.Opts = []string{"1", "2"} }
+	env := func(v string) func(*c05Fld) { return func(f *c05Fld) { f.Env = true; f.EV = &v } }
 	return []c05Case{
 		// F1 jsonnumber-overflow
 		c05One(sc("int8"), nil, c05Num("300")),
@@ -87,6 +88,14 @@ func c05MinimalCases() []c05Case {
 		// F11 fillslicefromstring-nested-array-panic
 		c05One(sl(sl(sc("bool"))), nil, c05Str("[[]]")),
 		c05One(sl(sl(sc("int"))), nil, c05Str("[[1,2]]")),
+		// F12 env-int64-duration-panic, F13 env-pointer-panic (env= region, found after round 2)
+		c05One(sc("int64"), env("0"), c05Num("1")),
+		c05One(ptr("int"), env("5"), c05Num("1")),
+		// env= neighbours: overrides the document; range/options apply to it
+		c05One(sc("int"), env("123"), c05Num("18")),
+		c05One(sc("int8"), env("300"), c05Num("1")),
+		c05One(sc("int"), func(f *c05Fld) { env("70000")(f); f.Rng = &c05Rng{L: "1", R: "65535", LI: true, RI: true} }, c05Num("80")),
+		c05One(sc("dur"), env("1h"), c05Str("1s")),
 	}
 }
 
@@ -97,7 +106,8 @@ func c05DumpReplays(dir string) {
 	pick := map[int]string{0: "jsonnumber-overflow", 15: "setvalue-overflow", 20: "fillslice-nonslice-panic",
 		24: "fillslice-struct-elem-panic", 25: "fillslicevalue-object-elem-panic", 26: "generatemap-ptr-elem-panic",
 		29: "duration-number-panic", 31: "stringoption-number-options-panic", 34: "fillslicefromstring-ptr-elem-panic",
-		36: "fillslicefromstring-null-elem-panic", 38: "fillslicefromstring-nested-array-panic"}
+		36: "fillslicefromstring-null-elem-panic", 38: "fillslicefromstring-nested-array-panic",
+		40: "env-int64-duration-panic", 41: "env-pointer-panic"}
 	cases := c05MinimalCases()
 	_ = os.MkdirAll(dir, 0o755)
 	for i, id := range pick {
